@@ -1,3 +1,5 @@
 ------------------------------ MODULE MC_Heap ------------------------------
-EXTENDS AxCutHeap
+EXTENDS AxCutHeap, Json
+\* every generated history is printed (one line of JSON) for replay into the real backends
+EmitHist == hist # <<>> => PrintT("HIST " \o ToJson(hist))
 =============================================================================
